@@ -31,6 +31,7 @@ TRACKABLE = {CALC, EDIT, SIGN, UNSIGN, STAMP, LINK, TAG, META, NOTES, VALIDATE, 
 BASE_VALID = {0: True, 1: True, 2: False, 3: False}
 BASE_CALC = {0: True, 1: True, 2: True, 3: False}
 BASE_CODE = {0: True, 1: False, 2: True, 3: True}
+BASE_DOC = {0: 0, 1: 0, 2: 2, 3: 3}     # document 1 is document 0 without its code
 
 
 class Track:
@@ -48,12 +49,13 @@ class Track:
             self.insert(base)
 
     def insert(self, b):
-        self.doc = (b, 0, BASE_CODE[b])
+        self.base = b
+        self.doc = (BASE_DOC[b], 0, BASE_CODE[b])
         if BASE_CALC[b]:
             self.head = self.doc
 
     def valid_for_signing(self):
-        return self.doc is not None and BASE_VALID[self.doc[0]] and self.doc[2]
+        return self.doc is not None and BASE_VALID[self.base] and self.doc[2]
 
     def digest_matches(self):
         return self.doc is not None and self.head == self.doc
